@@ -33,6 +33,7 @@ static InvResult run_cli(bool yarac, const std::vector<std::string>& argv, uint6
     std::vector<const char*> av; for (auto& c : store) av.push_back(c.data()); av.push_back(nullptr);
     g_cap = CliCapture(); g_cap.active = true; g_cap.scheduled = true; g_cap.dir_seed = dir_seed;
     sim_detheap_enable(); sim_detheap_reset();   // yara's heap addresses depend on this invocation only (they decide basic-block counts)
+    g_alloc.junk_by_address = true;              // fresh memory is not zero and not the same everywhere: output that depends on an uninitialised field differs between invocations
     sim_clock_reset();
     static int rc; rc = -1; static bool exited; exited = false;
     auto emit = [](int status, const std::string& info) {
@@ -61,7 +62,7 @@ static const char* RULESETS[] = {
   "rule t_alpha : tagA tagB { meta: author = \"x\" n = 3 ok = true strings: $a = \"alpha_text\" $b = /reg[0-9]+ex/ $w = \"widestr\" wide condition: any of them }\n"
   "rule t_xor : tagB { strings: $x = \"xorsecret\" xor(1-255) condition: $x }\n"
   "rule t_fib { strings: $f = /x(a{1,3}){1,400}y/ condition: $f }\nrule t_big { condition: ext_big > 4294967296 }\n"
-  "rule t_mz { condition: uint16(0) == 0x5a4d }\nrule t_ext { condition: ext_i == 7 }\nrule t_modext { condition: hash == 7 and filesize > 20 }\nrule t_deep { strings: $m = \"reg7ex\" condition: $m and (1 + (1 + (1 + (1 + (1 + (1 + (1 + (1 + (1 + (1 + (1 + (1 + (1 + (1 + (1 + (1 + (1 + (1 + (1 + (1 + (1 + (1 + (1 + (1 + filesize)))))))))))))))))))))))) > 24 }\nrule t_small : tagA { condition: filesize < 100 }\nprivate rule t_priv { condition: true }\nrule t_dep { condition: t_priv and filesize > 5 }\n",
+  "rule t_chain { strings: $c = { 43 48 41 49 [300-400] 4E 45 4E 44 } $x2 = \"xorsecret\" xor(1-255) condition: $c or $x2 }\nrule t_mz { condition: uint16(0) == 0x5a4d }\nrule t_ext { condition: ext_i == 7 }\nrule t_modext { condition: hash == 7 and filesize > 20 }\nrule t_deep { strings: $m = \"reg7ex\" condition: $m and (1 + (1 + (1 + (1 + (1 + (1 + (1 + (1 + (1 + (1 + (1 + (1 + (1 + (1 + (1 + (1 + (1 + (1 + (1 + (1 + (1 + (1 + (1 + (1 + filesize)))))))))))))))))))))))) > 24 }\nrule t_small : tagA { condition: filesize < 100 }\nprivate rule t_priv { condition: true }\nrule t_dep { condition: t_priv and filesize > 5 }\n",
   "import \"pe\"\nimport \"elf\"\nimport \"console\"\nglobal rule g_nonempty { condition: filesize > 0 }\n"
   "rule m_pe : bin { condition: pe.number_of_sections > 0 }\nrule m_elf : bin { condition: elf.type == elf.ET_DYN or elf.type == elf.ET_EXEC }\n"
   "rule m_many : text { strings: $a = \"ab\" $h = { 61 62 ?? 61 } condition: #a > 2 or $h }\nrule m_ext : text { condition: ext_i == 7 and ext_s contains \"ne\" and ext_big != 5 }\nrule m_log : text { condition: console.log(\"size \", filesize) and filesize < 60 }\nrule m_modext : text { condition: hash == 7 and filesize < 40 }\nrule m_deep { condition: filesize > 4 and uint32(0) == 0x464c457f and (1 + (1 + (1 + (1 + (1 + (1 + (1 + (1 + (1 + (1 + (1 + (1 + (1 + (1 + (1 + (1 + (1 + (1 + (1 + (1 + (1 + (1 + (1 + (1 + filesize)))))))))))))))))))))))) > 24 }\n",
@@ -76,6 +77,7 @@ static std::vector<std::string> make_contents() {
   { std::string x = "\x22\x35\x28\x29\x3f\x39\x28\x3f\x2e"; c.push_back("pad " + x + " pad reg7ex"); }
   { std::string m; for (int i = 0; i < 60; i++) m += "ab"; c.push_back(m); }
   c.push_back("MZ not really a pe file"); c.push_back("tiny"); c.push_back("x" + std::string(3000, 'a') + "y"); c.push_back("..xaay.. xaaay"); c.push_back(std::string(5000, 'z') + "alpha_text"); c.push_back("abxa abya");
+  c.push_back("CHAI" + std::string(340, '.') + "NEND and a second CHAI" + std::string(310, '-') + "NEND");   // chained hex string of t_chain
   { std::string m; for (int i = 0; i < 150; i++) m += "ab"; c.push_back(m + " reg7ex"); }   // > YR_MAX_STRING_MATCHES (96 in this build) matches of m_many.$a: a warning, an error with --fail-on-warnings
   return c;
 }
